@@ -18,6 +18,7 @@ import (
 	"github.com/ucan-wg/go-ucan/pkg/args"
 	"github.com/ucan-wg/go-ucan/pkg/command"
 	"github.com/ucan-wg/go-ucan/pkg/meta"
+	"github.com/ucan-wg/go-ucan/pkg/policy/limits"
 	"github.com/ucan-wg/go-ucan/token/delegation"
 	"github.com/ucan-wg/go-ucan/token/internal/nonce"
 	"github.com/ucan-wg/go-ucan/token/internal/parse"
@@ -226,6 +227,22 @@ func (t *Token) validate() error {
 
 	if len(t.nonce) < 12 {
 		errs = errors.Join(errs, fmt.Errorf("token nonce too small"))
+	}
+
+	// The checks below mirror what the decoders enforce, so that a token accepted
+	// by a constructor can always be read back once sealed.
+	if _, err := command.Parse(t.command.String()); err != nil {
+		errs = errors.Join(errs, fmt.Errorf("invalid command: %w", err))
+	}
+	if t.arguments != nil {
+		if err := t.arguments.Validate(); err != nil {
+			errs = errors.Join(errs, fmt.Errorf("invalid arguments: %w", err))
+		}
+	}
+	for name, ts := range map[string]*time.Time{"expiration": t.expiration, "invokedAt": t.invokedAt} {
+		if ts != nil && (ts.Unix() > limits.MaxInt53 || ts.Unix() < limits.MinInt53) {
+			errs = errors.Join(errs, fmt.Errorf("%s timestamp %d exceeds safe integer bounds", name, ts.Unix()))
+		}
 	}
 
 	return errs
